@@ -26,7 +26,14 @@ CHECKS.append(chk("C06", "exploration",
     "Differential testing against SQLite itself: generated programs (INSERT/UPDATE/DELETE/SELECT grammar over keys of all classes, predicates = < <= > >= IN BETWEEN, ORDER BY asc/desc, LIMIT/OFFSET, aggregates, transactions, re-opens) run in lock-step on an s3db table (rows-per-object 2..4096, node cache sizes) and a native WITHOUT ROWID table; statement outcome classes and result rows (sequences when ordered by key, multisets otherwise) must agree after every statement. Open findings K2a/K2b/K3/K4 are steered away from by construction (counted) and reported from their witnesses.",
     "property-based differential testing (rapid) against native SQLite"))
 
-for pid in ["C01","C02","C03","C04","C05","C07","C08","C09","C10","C11","C12","C13","C14","C15","C17","C18","C19","C20"]:
+CHECKS.append(chk("C01", "exploration",
+    "Metamorphic + model: generated multi-writer histories (autocommit statements, transactions, refreshes, byte-identical retries, partial opens that commit merges of a subset of the frontier, unique write times in arbitrary order); at checkpoints 4-6 readers on copies of the bucket - read-only and read-write, four merge orders chosen through the permutation hook, plus copies where every retired version is listed as current again - must return identical rows, equal to an operation-based reference model; three read-write opens in a row must converge to one current version and write nothing more.",
+    "stateful property-based testing (rapid): metamorphic relation over merge order/grouping/repetition + independent operation-based model"))
+CHECKS.append(chk("C02", "exploration",
+    "Model-based: the same multi-writer runner biased to long per-key sequences (insert, partial updates, delete, re-insert) at non-monotone unique write times over 1-3 writers; after every statement the issuing writer's outcome class and rows, and at checkpoints all merged observers, must equal the operation-based reference model (row status by latest INSERT/DELETE, each column by latest assignment), which is by construction independent of how statements are spread over writers.",
+    "stateful property-based testing (rapid) against an independent operation-based reference model"))
+
+for pid in ["C03","C04","C05","C07","C08","C09","C10","C11","C12","C13","C14","C15","C17","C18","C19","C20"]:
     NOT_YET[pid] = "check under construction in this session (designed in DESIGN.md section 5); not claimed until its quick tier runs clean on the unchanged tree"
 
 MANIFEST = {
